@@ -3,7 +3,6 @@ package props
 import (
 	"encoding/json"
 	"fmt"
-	"regexp"
 	"strings"
 
 	"verif/harness/gen"
@@ -78,28 +77,6 @@ func init() {
 		}
 		return strings.Contains(fail, "OAIGen")
 	}
-	// Minimal / full flattening with imported definitions that collide by name: the conflict definitions
-	// (OAIGen) are merged back into their referers from bookkeeping (referer lists, schema copies) taken
-	// before the merging starts; when a referer has moved, or one conflict definition refers to another,
-	// a $ref to an already deleted OAIGen definition survives and Flatten fails on it (map-order dependent).
-	Classifiers["oaigen-dedupe-dangling"] = func(prop string, c interface{}, fail string) bool {
-		fc, ok := c.(*gen.FlattenCase)
-		if !ok || fc.Opts.Expand || !hasImportCollision(fc) {
-			return false
-		}
-		return oaigenDangling.MatchString(fail)
-	}
-	// A property (or root definition) whose name is punctuation only ("~", "?", "{}") mangles to the empty
-	// string: the name built for a schema below it equals the name of its parent definition, it is created
-	// as "<parent>OAIGen", merged back into the parent by the de-duplication step, re-introduced as an
-	// anonymous pointer, named again ... until a stale key makes Flatten fail.
-	Classifiers["empty-mangled-local-name"] = func(prop string, c interface{}, fail string) bool {
-		fc, ok := c.(*gen.FlattenCase)
-		if !ok || !hasPunctOnlyLocalName(fc) {
-			return false
-		}
-		return strings.Contains(fail, "OAIGen") || strings.Contains(fail, "oaiGen") || strings.Contains(fail, "JSON pointer error")
-	}
 	// analysis.Schema on {"$ref": "#/definitions/x/<keyword>"} where x has no such keyword: the pointer
 	// resolves to a typed nil (*SchemaOrBool, *SchemaOrArray, *Schema) inside go-openapi/spec, whose
 	// resolver then marshals it: panic inside the dependency.
@@ -121,64 +98,6 @@ func init() {
 		}
 		return false
 	}
-}
-
-var oaigenDangling = regexp.MustCompile(`object has no key "[^"]*(OAIGen|oaiGen)[0-9]*"|nil value has no field|dangling: ref "#/definitions/[^"]*(OAIGen|oaiGen)[0-9]*"`)
-
-// hasImportCollision: two definitions of the bundle (at least one auxiliary) fold onto the same name.
-func hasImportCollision(c *gen.FlattenCase) bool {
-	type nd struct {
-		name string
-		aux  bool
-	}
-	var all []nd
-	for n := range Obj(c.Root["definitions"]) {
-		all = append(all, nd{n, false})
-	}
-	for _, d := range c.Aux {
-		for n := range Obj(d["definitions"]) {
-			all = append(all, nd{n, true})
-		}
-	}
-	for i, x := range all {
-		if x.aux && gen.CollisionBase(x.name, true) == "" {
-			return true
-		}
-		for j, y := range all {
-			if i != j && x.aux && gen.CollisionBase(x.name, true) == gen.CollisionBase(y.name, y.aux) {
-				return true
-			}
-		}
-	}
-	return false
-}
-
-// hasPunctOnlyLocalName: a property name anywhere, or a root definition name, mangles to "".
-func hasPunctOnlyLocalName(c *gen.FlattenCase) bool {
-	found := false
-	for _, n := range SortedKeys(Obj(c.Root["definitions"])) {
-		found = found || gen.CollisionBase(n, true) == ""
-	}
-	var walk func(v J, inProps bool)
-	walk = func(v J, inProps bool) {
-		switch x := v.(type) {
-		case map[string]interface{}:
-			for k, e := range x {
-				if inProps && gen.CollisionBase(k, true) == "" {
-					found = true
-				}
-				walk(e, k == "properties" && !inProps)
-			}
-		case []interface{}:
-			for _, e := range x {
-				walk(e, false)
-			}
-		}
-	}
-	for _, d := range c.Docs() {
-		walk(d, false)
-	}
-	return found
 }
 
 func inputHasOAIGenName(c *gen.FlattenCase) bool {
